@@ -26,6 +26,24 @@ C02, what the capstones (`Props/C02Capstone.lean`) still excluded.
    closing 1-RTT packet; `mix_dg_step`, `mix_feed_step`, `mix_feed_rest`; `build_congr`: the builder reads the exported
    frames only.
 
+2. 0-RTT (`afterTls_early`, `zr_turn`, `quic_connection_exact_0rtt_partial`; the losses: `zero_rtt_dropped_without_key`,
+   `zero_rtt_rejected_poisons_pn`). What the tool does: the Early decryptor and the early header-protection key are derived
+   in the same `set_tls_decryptors` call as all other keys, i.e. when the CRYPTO stream completes the ClientHello — with the
+   FIRST OFFERED suite's hash / cipher / key length (quic_tls_parser.py l. 90 "For early data") — and again at the ServerHello
+   with the selected suite. A 0-RTT packet is exported iff, when it is captured, that suite is the one the client protects
+   0-RTT with (the resumed session's, RFC 9001 §4.6.1 / RFC 8446 §4.2.10-11; the four suites differ pairwise in (hash,
+   cipher, key length), so "fits" means "equal"):
+     (a) it comes after the packet that completes the ClientHello in CRYPTO (same datagram, later packet, is fine), and
+     (b) before the ServerHello: resumed suite = FIRST suite of the ClientHello's list (NOT given by the RFCs: the resumed
+         suite may stand anywhere in the list); after the ServerHello: resumed suite = selected suite (given by RFC 8446
+         §4.2.10 when the server accepts early data).
+   When (a) fails the packet is dropped without a trace (`zero_rtt_dropped_without_key`). When (b) fails the dissector removes
+   header protection with the wrong key, `get_full_packet_number` stores the garbage packet number as the largest of the
+   client's application space BEFORE the AEAD check rejects the packet (`zero_rtt_rejected_poisons_pn`), and every later
+   1-RTT packet of the client is reconstructed next to it and lost: `harness/c02_0rtt_replay.py` (real tool, real
+   cryptography) — reported as a defect candidate. PARTIAL: the full `quic_connection_exact_0rtt` (0-RTT packets anywhere in
+   the interleaved history) needs `EarlyKeyed` threaded through the handshake invariant; not done.
+
 Core Lean only.
 -/
 import TLX.Props.C02Capstone
@@ -1038,4 +1056,275 @@ theorem quic_connection_exact_interleaved_conformant (hl : H.Lawful) (h32 : H.sh
     htimes
 
 end Interleaved
+/-! ### 0-RTT -/
+section ZeroRtt
+variable (maskFn : Dissect.MaskFn) (H : Crypto.Prims) (Pc : Cipher.Prims)
+
+/-- the Early decryptor RFC 9001 §5.1 gives for CLIENT_EARLY_TRAFFIC_SECRET `e` under the suite `sel` -/
+def earlyDec (sel : SuiteSel) (e : Bytes) : Dec :=
+  { alg := sel.alg, server := none, client := ⟨quicKey (hashOf H sel.hash) e sel.keyLen, quicIv (hashOf H sel.hash) e⟩ }
+
+/-- the session holds the 0-RTT keys of suite `sel`: decryptor and header-protection key -/
+structure EarlyKeyed (sel : SuiteSel) (e : Bytes) (s : St Tls) : Prop where
+  dec : s.decEarly = some (earlyDec H sel e)
+  hp : s.tls.hp.clientEarly = some (quicHp (hashOf H sel.hash) e sel.keyLen)
+
+/-- **When and with which suite the tool derives the 0-RTT keys.** `handle_crypto_frame` with `new_data` set (the CRYPTO
+    stream just completed a ClientHello, a ServerHello or EncryptedExtensions), the connection's lines in the key log
+    including CLIENT_EARLY_TRAFFIC_SECRET: the Early decryptor and the early header-protection key are derived with the suite
+    that `tls_session.ciphersuite` holds AT THAT MOMENT — after the ClientHello that is the FIRST OFFERED suite
+    (quic_tls_parser.py l. 90), after the ServerHello the selected one — whatever suite the client used. -/
+theorem afterTls_early (kl : List Keylog.Key) (s : St Tls) (cr cs ch sh ca sa e : Bytes) (sel : SuiteSel)
+    (hv1 : s.version = .v1) (hv : s.tls.ver = s.version)
+    (hn : s.tls.msgs.newData = true) (hcr : s.tls.msgs.clientRandom = some cr) (hcs : s.tls.msgs.ciphersuite = some cs)
+    (hsel : selectSuite cs = some sel) (hkl : KeylogHas kl cr ch sh ca sa (some e)) :
+    EarlyKeyed H sel e (afterTls (params H Pc kl) s).1 := by
+  have e1 : (params H Pc kl).tlsNewData s.tls = true := hn
+  have e2 : (params H Pc kl).tlsClientRandom s.tls = some cr := hcr
+  have e3 : (params H Pc kl).tlsCiphersuite s.tls = some cs := hcs
+  have hk : sel.keyLen < 65536 := by
+    unfold selectSuite at hsel
+    repeat' split at hsel
+    all_goals first
+      | (cases hsel; decide)
+      | (simp at hsel)
+  obtain ⟨k, hdq, k1, k2, k3, k4, k5, k6, k7⟩ := devQuic_rfc H kl sel hk cr ch sh ca sa (some e) hkl
+  have hdq' : devQuic H kl sel s.version cr = .ok k := by rw [hv1]; exact hdq
+  have e4 : (params H Pc kl).devQuicKeys sel s.version cr = .ok (groupsOf k) := by
+    show (devQuic H kl sel s.version cr).map groupsOf = _
+    rw [hdq']; rfl
+  unfold afterTls
+  simp only [e1, if_true, e2, e3, setTlsDecryptors, hsel, e4]
+  simp only [Option.map_some] at k7
+  refine ⟨?_, ?_⟩ <;>
+    simp [installGroups, groupsOf, k7, params, tlsClearNewData, hcr, hcs, hsel, hv, hdq', earlyDec, dirOf, tripleSpec,
+      quicPacketKeys, HpKeys.withTls]
+
+
+/-- what makes a sender decision a QUIC v1 0-RTT packet (RFC 9000 §17.2.3) -/
+structure ZrShape (x : SPkt) : Prop where
+  level : x.level = .zeroRtt
+  client : x.srv = false
+  typeBits : x.typeBits = (ltypeOf x.level).bits
+  version : x.version = [0, 0, 0, 1]
+  dcid : x.dcid.length ≤ 20
+  scid : x.scid.length ≤ 20
+  tok : x.tokW.fits x.token.length
+  len : x.lenW.fits (x.pnLen + (encodeAll x.frames).length + 16)
+  padded : 4 ≤ x.pnLen + (encodeAll x.frames).length
+
+/-- the 0-RTT packet on the wire, protected with the early keys of the suite `selR` of the resumed session -/
+def zrWire (L : SealLaws Pc) (selR : SuiteSel) (e : Bytes) (q : PkH) : Bytes :=
+  q.wire L.aeadSeal selR.alg (earlyDec H selR e).client
+
+/-- **One 0-RTT packet, in a session that holds the sender's early keys** (`EarlyKeyed` for the suite `selR` the client
+    used): the dissector recovers it, it is decrypted, its STREAM frames go to `output_buffer` with the packet's capture time,
+    the client's application packet-number space advances, everything else stays. `hmask`: the header-protection primitive
+    the dissector picks is selected by `tls_session.ciphersuite` AT THAT MOMENT (`envOf s`): it must be the sender's. -/
+theorem zr_turn (hl : H.Lawful) (kl : List Keylog.Key) (L : SealLaws Pc) (selR : SuiteSel) (csR : Bytes)
+    (hselR : selectSuite csR = some selR) (e : Bytes) (s : St Tls) (q : PkH) (hshape : ZrShape q.x)
+    (hek : EarlyKeyed H selR e s) (hver : s.tls.ver = s.version)
+    (hfr : ∀ f ∈ q.x.frames, isCryptoQ f = false) (hwf : WellFormedSeq q.x.frames)
+    (hpn : PnLenOk s.pnClient.app q.x.pn q.x.pnLen)
+    (hmask : maskFn (envOf s).chacha (quicHp (hashOf H selR.hash) e selR.keyLen)
+      (longOf q.x (protectedPayload L.aeadSeal selR.alg (earlyDec H selR e).client q.x)).sample = some q.mask)
+    (hm5 : 5 ≤ q.mask.length) (guessed more : Bytes) :
+    let p := emit L.aeadSeal selR.alg (earlyDec H selR e).client q.x
+    let s' : St Tls := afterFrames (pnStore s false .app (max s.pnClient.app q.x.pn)) p
+      ((normalize q.x.frames).map QFrame.toParsed)
+    (Dissect.dissectLoop maskFn (fun x : LoopSt => envOf x.1) (handleTurn (params H Pc kl)) false guessed q.x.ts
+        (s, none) (zrWire H Pc L selR e q ++ more)).1 =
+      (Dissect.dissectLoop maskFn (fun x : LoopSt => envOf x.1) (handleTurn (params H Pc kl)) false guessed q.x.ts
+        (s', none) more).1 ∧
+    s'.out = s.out ++ expectedOf .rtt0 q.x := by
+  intro p s'
+  have hlawR : (hashOf H selR.hash).Lawful := by cases selR.hash <;> simp [hashOf, hl.sha256, hl.sha384]
+  have hcases : (selR.alg = .aesgcm ∧ selR.keyLen = 16) ∨ (selR.alg = .aesgcm ∧ selR.keyLen = 32) ∨
+      (selR.alg = .chachaPoly ∧ selR.keyLen = 32) ∨ (selR.alg = .aesccm ∧ selR.keyLen = 16) := by
+    unfold selectSuite at hselR
+    repeat' split at hselR
+    all_goals first
+      | (cases hselR; simp)
+      | (simp at hselR)
+  have hk255 : selR.keyLen ≤ 255 := by rcases hcases with h | h | h | h <;> omega
+  obtain ⟨⟨hn1, hn4⟩, _⟩ := hpn
+  have haead : AeadOk selR.alg (earlyDec H selR e).client.key.length (earlyDec H selR e).client.iv.length 16 := by
+    simp only [earlyDec, quicKey_length _ hlawR _ _ hk255, quicIv_length _ hlawR]
+    rcases hcases with ⟨a, b⟩ | ⟨a, b⟩ | ⟨a, b⟩ | ⟨a, b⟩ <;> rw [a, b] <;> decide
+  have hiv : 8 ≤ (earlyDec H selR e).client.iv.length := by
+    simp only [earlyDec, quicIv_length _ hlawR]; decide
+  have hlen : (protectedPayload L.aeadSeal selR.alg (earlyDec H selR e).client q.x).length = (encodeAll q.x.frames).length + 16 := by
+    unfold protectedPayload
+    have hnl : (nonce (earlyDec H selR e).client.iv q.x.pn).length = (earlyDec H selR e).client.iv.length := by simp [nonce, Lemmas.QuicVarint.ofNatBE_length]
+    exact L.seal_len _ _ _ _ _ _ (by rw [hnl]; exact haead)
+  have hne : q.x.level ≠ .oneRtt := by rw [hshape.level]; decide
+  -- wire format facts (the 0-RTT twins of `longOf_first` / `longOf_wf` / `longOf_toPkt`)
+  have hfirst : (longOf q.x (protectedPayload L.aeadSeal selR.alg (earlyDec H selR e).client q.x)).first = firstByteLong q.x := by
+    unfold Long.first firstByteLong longOf
+    simp only [C02Capstone.pnBytes_length, hshape.typeBits]
+    congr 1
+    have : (ltypeOf q.x.level).bits < 4 := by cases q.x.level <;> simp [ltypeOf, LType.bits]
+    omega
+  have hlwf : (longOf q.x (protectedPayload L.aeadSeal selR.alg (earlyDec H selR e).client q.x)).wf := by
+    refine ⟨?_, ?_, ?_, ?_, ?_, ?_, ?_, ?_⟩
+    · show q.x.lowBits % 4 < 4; omega
+    · show q.x.version.length = 4; rw [hshape.version]; rfl
+    · show q.x.dcid.length ≤ 255; have := hshape.dcid; omega
+    · show q.x.scid.length ≤ 255; have := hshape.scid; omega
+    · show 1 ≤ (pnBytes q.x.pnLen q.x.pn).length; rw [C02Capstone.pnBytes_length]; exact hn1
+    · show (pnBytes q.x.pnLen q.x.pn).length ≤ 4; rw [C02Capstone.pnBytes_length]; exact hn4
+    · exact hshape.tok
+    · show q.x.lenW.fits ((pnBytes q.x.pnLen q.x.pn).length + (protectedPayload L.aeadSeal selR.alg (earlyDec H selR e).client q.x).length)
+      rw [C02Capstone.pnBytes_length, hlen, ← Nat.add_assoc]; exact hshape.len
+  have htoPkt : (longOf q.x (protectedPayload L.aeadSeal selR.alg (earlyDec H selR e).client q.x)).toPkt false q.x.ts =
+      emit L.aeadSeal selR.alg (earlyDec H selR e).client q.x := by
+    unfold Long.toPkt emit
+    rw [hfirst]
+    simp only [hne, if_false]
+    simp [longOf, hshape.level, hshape.client, ltypeOf, LType.ptype, Level.ptype, Long.lengthField, lengthField,
+      C02Capstone.pnBytes_length, hlen, Nat.add_assoc]
+  have hkey : (envOf s).keys (senderKey (ltypeOf q.x.level) false) =
+      some (quicHp (hashOf H selR.hash) e selR.keyLen) := by
+    simp [hshape.level, ltypeOf, senderKey, envOf, HpKeys.get, hek.hp]
+  have hextract : Dissect.extract maskFn (envOf s) false guessed q.x.ts (zrWire H Pc L selR e q ++ more) =
+      { pkts := [p], rest := more } := by
+    have := C02Dissect.dissect_encode_long maskFn (envOf s) false guessed q.x.ts
+      (longOf q.x (protectedPayload L.aeadSeal selR.alg (earlyDec H selR e).client q.x)) hlwf
+      (by show q.x.version ≠ _; rw [hshape.version]; decide)
+      (by show q.x.scid.length ≤ 63; have := hshape.scid; omega)
+      (by show 20 ≤ (pnBytes q.x.pnLen q.x.pn).length + (protectedPayload L.aeadSeal selR.alg (earlyDec H selR e).client q.x).length
+          rw [C02Capstone.pnBytes_length, hlen]; have := hshape.padded; omega)
+      _ q.mask hkey
+      (by
+        have : senderChacha (longOf q.x (protectedPayload L.aeadSeal selR.alg (earlyDec H selR e).client q.x)).ty (envOf s).chacha =
+            (envOf s).chacha := by simp [longOf, hshape.level, ltypeOf, senderChacha]
+        rw [this]; exact hmask) hm5 more
+    rw [htoPkt] at this
+    unfold zrWire PkH.wire
+    exact this
+  have hnew : zrWire H Pc L selR e q ++ more ≠ [] := by
+    unfold zrWire PkH.wire Long.protect applyMask; simp
+  -- the session decrypts it
+  have hdecr : longDecryptor s q.x.level.ptype = .ok (some (earlyDec H selR e)) := by
+    simp [hshape.level, Level.ptype, longDecryptor, hek.dec]
+  have hdir : (if q.x.srv then (earlyDec H selR e).server else some (earlyDec H selR e).client) = some (earlyDec H selR e).client := by
+    rw [hshape.client]; simp
+  have hpnl : pnLargest s q.x.srv (spaceOf q.x.level) = s.pnClient.app := by
+    rw [hshape.client, hshape.level]; rfl
+  have hstep := step_long_eq (params H Pc kl) L q.x (earlyDec H selR e) (earlyDec H selR e).client s hne hdecr hdir haead hiv
+    (by rw [hpnl]; exact ⟨⟨hn1, hn4⟩, ‹_›⟩) hwf
+  have hncP : ∀ g ∈ (normalize q.x.frames).map QFrame.toParsed, isCryptoP g = false := by
+    intro g hg
+    obtain ⟨f, hf, rfl⟩ := List.mem_map.mp hg
+    rw [toParsed_isCrypto]; exact normalize_noCrypto _ hfr f hf
+  simp only [hpnl, hshape.client, hshape.level, spaceOf] at hstep
+  have halg : (earlyDec H selR e).alg = selR.alg := rfl
+  rw [halg, handleFrames_nc (params H Pc kl) _ _ _ hncP] at hstep
+  have hst : (stepPkt (params H Pc kl) s p).st = s' ∧ (stepPkt (params H Pc kl) s p).escaped = none := by
+    rw [hstep]; simp [postLevel, s', p, pnLargest, PnTab.get]
+  have hturn : handleTurn (params H Pc kl) (s, none) [p] = (s', none) := by
+    unfold handleTurn
+    simp only [handleQuicPackets, hst.2, hst.1]
+    congr 1
+    apply stampVer_id
+    show s.tls.ver = s.version
+    exact hver
+  refine ⟨?_, ?_⟩
+  · rw [Lemmas.QuicDissect.dissectLoop_cons _ _ _ _ _ _ _ _ hnew]
+    simp only [hextract, hturn]
+  · have hsrv : p.isServer = false := by simp [p, emit, hne, hshape.client]
+    have hts : p.ts = q.x.ts := by simp [p, emit, hne]
+    have hpt : p.ptype = .rtt0 := by simp [p, emit, hne, hshape.level, Level.ptype]
+    show (afterFrames _ p _).out = _
+    simp only [afterFrames, filterMap_export]
+    simp [expectedOf, exported_eq, mkOut, hts, hsrv, hpt, pnStore, hshape.client]
+
+/-- **0-RTT, PARTIAL** (the two local facts composed; what is MISSING for `quic_connection_exact_0rtt`: threading
+    `EarlyKeyed` through the handshake invariant `HsSt` of `quic_connection_exact_interleaved`, so that 0-RTT packets may
+    stand anywhere in the interleaved history). The CRYPTO stream has just completed a hello (`new_data`), the parser's
+    `ciphersuite` is `cs` — the FIRST OFFERED suite after a ClientHello, the selected one after a ServerHello — and the key
+    log has the connection's lines incl. CLIENT_EARLY_TRAFFIC_SECRET. If `cs` IS the suite `selR` of the resumed session the
+    client protects its 0-RTT packets with, the next 0-RTT packet is decrypted and its STREAM frames are in
+    `output_buffer` with the packet's capture time (hence exported: `build_congr`, `build_groups`). -/
+theorem quic_connection_exact_0rtt_partial (hl : H.Lawful) (kl : List Keylog.Key) (L : SealLaws Pc)
+    (s0 : St Tls) (cr cs ch sh ca sa e : Bytes) (selR : SuiteSel)
+    (hv1 : s0.version = .v1) (hv : s0.tls.ver = s0.version)
+    (hn : s0.tls.msgs.newData = true) (hcr : s0.tls.msgs.clientRandom = some cr)
+    (hcs : s0.tls.msgs.ciphersuite = some cs) (hsel : selectSuite cs = some selR)
+    (hkl : KeylogHas kl cr ch sh ca sa (some e))
+    (q : PkH) (hshape : ZrShape q.x) (hfr : ∀ f ∈ q.x.frames, isCryptoQ f = false) (hwf : WellFormedSeq q.x.frames)
+    (hpn : PnLenOk s0.pnClient.app q.x.pn q.x.pnLen)
+    (hmask : maskFn (cs == [0x13, 0x03]) (quicHp (hashOf H selR.hash) e selR.keyLen)
+      (longOf q.x (protectedPayload L.aeadSeal selR.alg (earlyDec H selR e).client q.x)).sample = some q.mask)
+    (hm5 : 5 ≤ q.mask.length) (guessed more : Bytes) :
+    let s := (afterTls (params H Pc kl) s0).1
+    ∃ s', (Dissect.dissectLoop maskFn (fun x : LoopSt => envOf x.1) (handleTurn (params H Pc kl)) false guessed q.x.ts
+        (s, none) (zrWire H Pc L selR e q ++ more)).1 =
+      (Dissect.dissectLoop maskFn (fun x : LoopSt => envOf x.1) (handleTurn (params H Pc kl)) false guessed q.x.ts
+        (s', none) more).1 ∧
+      s'.out = s0.out ++ expectedOf .rtt0 q.x ∧ s'.pnClient.app = max s0.pnClient.app q.x.pn := by
+  intro s
+  have hek := afterTls_early H Pc kl s0 cr cs ch sh ca sa e selR hv1 hv hn hcr hcs hsel hkl
+  obtain ⟨_, _, a3, _, _, _, _, _, a9, _, _, _, a13, a14, _, _, a17⟩ :=
+    afterTls_hs H Pc kl s0 cr cs ch sh ca sa (some e) hv1 hv hn hcr hcs hkl
+  have hcsu : s.tls.msgs.ciphersuite = some cs := by
+    have h1 : (coreOf s.tls).msgs.ciphersuite = (clearND (coreOf s0.tls)).msgs.ciphersuite := by rw [a17]
+    exact h1.trans hcs
+  have hch : (envOf s).chacha = (cs == [0x13, 0x03]) := by
+    show (s.tls.msgs.ciphersuite == some [0x13, 0x03]) = _
+    rw [hcsu]; rfl
+  have hz := zr_turn maskFn H Pc hl kl L selR cs hsel e s q hshape hek (by rw [a14, a3]; exact hv) hfr hwf
+    (by rw [show s.pnClient = s0.pnClient from a9]; exact hpn) (by rw [hch]; exact hmask) hm5 guessed more
+  refine ⟨_, hz.1, ?_, ?_⟩
+  · rw [hz.2, show s.out = s0.out from a13]
+  · simp [afterFrames, pnStore, PnTab.set, show s.pnClient = s0.pnClient from a9]
+
+/-! what happens to a 0-RTT packet the session has no (fitting) key for — the two mechanisms behind the losses
+    `harness/c02_0rtt_replay.py` shows on the real tool -/
+
+section Mechanism
+variable {σ : Type} (P : Params σ)
+
+/-- (D) no Early decryptor yet — the ClientHello is not complete in the CRYPTO stream, or the key log has no
+    CLIENT_EARLY_TRAFFIC_SECRET line: `self.decryptors["Early"]` raises KeyError inside `decrypt_packet`'s try; the packet
+    is dropped, the session is exactly as before (also its packet-number tables). It is never looked at again. -/
+theorem zero_rtt_dropped_without_key (s : St σ) (p : Pkt) (hh : p.htype = .long) (ht : p.ptype = .rtt0)
+    (hd : s.decEarly = none) :
+    stepPkt P s p = { st := s, caught := some .key, escaped := none } := by
+  have hsel : selectDecryptor P s p = (s, .error .key) := by
+    simp only [selectDecryptor, hh, ht, longDecryptor, hd]
+  simp [stepPkt, ht, decryptPacket, hsel, afterDecrypt]
+
+/-- (B) an Early decryptor exists but is not the sender's (derived with another suite), so the AEAD check fails — and the
+    dissector has removed header protection with the wrong key, so `pnb` is garbage: `get_full_packet_number` has ALREADY
+    stored the packet number decoded from `pnb` as the largest one of the client's application space (shared by 0-RTT and
+    1-RTT packets, RFC 9000 §12.3). The packet is dropped; the table keeps the garbage. -/
+theorem zero_rtt_rejected_poisons_pn (s : St σ) (p : Pkt) (d : Dec) (pnb pn aad : Bytes) (e : PyErr)
+    (hh : p.htype = .long) (ht : p.ptype = .rtt0) (hd : s.decEarly = some d) (hpn : p.pn = some pnb)
+    (hres : pnResult (pnLargest s p.isServer .app) pnb = .ok pn) (haad : assocData p = .ok aad)
+    (hfail : decDecrypt P d p.payload pn aad p.isServer = .error e) :
+    stepPkt P s p =
+      { st := pnStore s p.isServer .app (PktNum.implUpdate (pnLargest s p.isServer .app)
+          (PktNum.implDecode (2 ^ (8 * pnb.length)) (2 ^ 62) (pnLargest s p.isServer .app) (Bytes.beNat pnb))),
+        caught := some e, escaped := none } := by
+  have hsel : selectDecryptor P s p = (s, .ok (some d)) := by
+    simp only [selectDecryptor, hh, ht, longDecryptor, hd]
+  have hsp : p.ptype.space = some .app := by rw [ht]; rfl
+  have hattr : hasPnAttr p = true := by unfold hasPnAttr; rw [hh, ht]
+  have hrest : decryptRest P s p (some d) =
+      (pnStore s p.isServer .app (PktNum.implUpdate (pnLargest s p.isServer .app)
+          (PktNum.implDecode (2 ^ (8 * pnb.length)) (2 ^ 62) (pnLargest s p.isServer .app) (Bytes.beNat pnb))), some e) := by
+    unfold decryptRest getFullPn
+    simp only [hsp, hattr, Bool.not_true, Bool.false_eq_true, if_false, hpn, hres, haad, hfail]
+  simp [stepPkt, ht, decryptPacket, hsel, hrest, afterDecrypt]
+
+end Mechanism
+
+/-- the arithmetic of the real-tool trace (`c02_0rtt_replay.py`, case B): the garbage packet number 0x3fa69012 of the
+    0-RTT packet becomes the largest one; the client's next 1-RTT packet, number 1 on one byte, is then reconstructed as
+    1067880449 — not 1: wrong nonce, the packet is lost, and so is every later one of the client -/
+example : PktNum.implUpdate 0 (PktNum.implDecode (2 ^ 32) (2 ^ 62) 0 0x3fa69012) = 1067880466 ∧
+    PktNum.implDecode (2 ^ 8) (2 ^ 62) 1067880466 1 = 1067880449 := by decide
+
+end ZeroRtt
 end TLX.Props.C02Capstone3
